@@ -8,6 +8,6 @@ e=env.worker_env()
 for k in ('PYTHONHASHSEED','PYTHONPATH','NUMBA_CACHE_DIR','NUMBA_NUM_THREADS','OMP_NUM_THREADS','PYTHONWARNINGS','VERIF_REPO'):
     print(f'export {k}={e[k]!r}')
 " 2>/dev/null)"
-cd /verif && /venv/bin/python -m vlib.regress $2 regressions/$2 /tmp/reg_$2.json 2>&1 | grep -v "condarc\|Unifying" | tail -3
+rm -f /tmp/reg_$2.json; cd /verif && /venv/bin/python -m vlib.regress $2 regressions/$2 /tmp/reg_$2.json 2>&1 | grep -v "condarc\|Unifying" | tail -3
 /venv/bin/python -c "
 import json; [print(r['file'],'FAILS' if r.get('failed') else 'passes',r.get('kind'),r.get('known') or '',(r.get('error') or '')[-300:]) for r in json.load(open('/tmp/reg_$2.json'))]" 2>/dev/null
